@@ -345,8 +345,12 @@ def _do_run(check, check_mod, pool, tier, seed, t_start, max_cases, nworkers, ti
     if not truncated:
         k = check.det_sample(tier, len(order))
         if k:
-            step = max(1, len(order) // k)
-            resample = [(seed, tier, i) for i in order[::step][:k]]
+            # cases that already carry a violation go through the gate (three runs) anyway; the sample is drawn
+            # from the others, so that a program made nondeterministic by the very defect a check reports is not
+            # mistaken for a nondeterministic harness
+            clean = [i for i in order if not results[i]['violations']]
+            step = max(1, len(clean) // k)
+            resample = [(seed, tier, i) for i in clean[::step][:k]]
             for od2 in pool.imap_unordered(_worker_run, resample, chunksize=1):
                 det_checked += 1
                 if od2.get('error') or outcome_digest(od2) != outcome_digest(results[od2['index']]):
@@ -411,7 +415,9 @@ def _do_run(check, check_mod, pool, tier, seed, t_start, max_cases, nworkers, ti
         if any(x.get('error') for x in g):
             print('HARNESS ERROR while gating:\n%s' % [x.get('error') for x in g if x.get('error')][0])
             return 2
-        if not all(_same_violation(x, v['clause']) for x in g) or g[0]['hashes'] != g[1]['hashes']:
+        # a clause named *.nondet reports that identical plans gave different results: its event-log hashes cannot
+        # be expected to repeat, only the verdict
+        if not all(_same_violation(x, v['clause']) for x in g) or (g[0]['hashes'] != g[1]['hashes'] and not v['clause'].endswith('.nondet')):
             say('gate failed for %s case %d: not reproducible' % (key, i))
             nondet = True
             continue
